@@ -76,10 +76,10 @@ theorem noM13_of_infix {a s : Str} (h : noM13 s = true) (ha : a <:+: s) : noM13 
 theorem not_isSpacePy_of (c : Char) (h : (isSpacePy O) c = false) : (isSpaceRe O) c = false := by
   simp only [isSpacePy, Bool.or_eq_false_iff] at h; exact h.1
 
-/-- What may follow a code line in a decorated text: nothing, a line break, or the spaces that
-precede a hint comment. -/
+/-- What may follow a code line in a decorated text: nothing, a line break, the spaces that
+precede a hint comment, or the hint comment itself (glued to the code). -/
 def SafeTail (Y : Str) : Prop :=
-  Y = [] ∨ (∃ Z, Y = '\n' :: Z) ∨ (∃ c Z, Y = ' ' :: c :: Z ∧ (c = ' ' ∨ c = '#'))
+  Y = [] ∨ (∃ Z, Y = '\n' :: Z) ∨ (∃ c Z, Y = ' ' :: c :: Z ∧ (c = ' ' ∨ c = '#')) ∨ (∃ Z, Y = '#' :: Z)
 
 /-- **No early marker.** A non-empty piece of code that does not contain `# paroxython:` cannot
 start an occurrence of `# paroxython:` that would run over what follows it. -/
@@ -103,7 +103,7 @@ theorem no_m13_prefix (a Y : Str) (ha : a ≠ []) (hm : noM13 a = true) (hY : Sa
     have hlt : a.length < 13 := by omega
     generalize a.length = n at hY' hpos hlt
     interval_cases n <;> simp [m13] at hY' <;>
-      (rcases hY with rfl | ⟨Z, rfl⟩ | ⟨c, Z, rfl, hc⟩ <;> simp at hY' <;>
+      (rcases hY with rfl | ⟨Z, rfl⟩ | ⟨c, Z, rfl, hc⟩ | ⟨Z, rfl⟩ <;> simp at hY' <;>
         (try (rcases hc with rfl | rfl <;> simp at hY')))
 
 theorem no_m14_prefix (a Y : Str) (ha : a ≠ []) (hm : noM13 a = true) (hY : SafeTail Y) :
@@ -138,30 +138,32 @@ theorem noM13_tail {c : Char} {t : Str} (h : noM13 (c :: t) = true) : noM13 t = 
 
 /-- `line.partition("# paroxython: ")` on a hinted code line. -/
 theorem partitionAt_code (code : Str) (k : Nat) (rest : Str) (hm : noM13 code = true) :
-    partitionAt m14 (code ++ (List.replicate (k + 1) ' ' ++ (m14 ++ rest))) =
-      some (code ++ List.replicate (k + 1) ' ', rest) := by
+    partitionAt m14 (code ++ (List.replicate k ' ' ++ (m14 ++ rest))) =
+      some (code ++ List.replicate k ' ', rest) := by
   induction code with
   | nil =>
     induction k with
     | zero =>
       have h1 : partitionAt m14 (m14 ++ rest) = some ([], rest) := by
         cases rest <;> simp [partitionAt, m14, m13]
-      have h0 : m14.isPrefixOf (' ' :: (m14 ++ rest)) = false := by simp [m14, m13, List.isPrefixOf_cons_cons]
-      simp only [List.nil_append, List.replicate_succ, List.replicate_zero, List.cons_append, partitionAt, h0, h1]
-      simp
+      simpa using h1
     | succ k ih =>
-      have h0 : m14.isPrefixOf (' ' :: (List.replicate (k + 1) ' ' ++ (m14 ++ rest))) = false := by
+      have h0 : m14.isPrefixOf (' ' :: (List.replicate k ' ' ++ (m14 ++ rest))) = false := by
         simp [m14, m13, List.isPrefixOf_cons_cons]
       simp only [List.nil_append] at ih
       rw [List.replicate_succ]
       simp only [List.nil_append, List.cons_append, partitionAt, h0, ih]
       simp
   | cons c t ih =>
-    have hsafe : SafeTail (List.replicate (k + 1) ' ' ++ (m14 ++ rest)) := by
+    have hsafe : SafeTail (List.replicate k ' ' ++ (m14 ++ rest)) := by
       right; right
       cases k with
-      | zero => exact ⟨'#', m14.tail ++ rest, by simp [m14, m13], Or.inr rfl⟩
-      | succ k => exact ⟨' ', List.replicate k ' ' ++ (m14 ++ rest), by simp [List.replicate_succ], Or.inl rfl⟩
+      | zero => exact Or.inr ⟨m14.tail ++ rest, by simp [m14, m13]⟩
+      | succ k =>
+        left
+        cases k with
+        | zero => exact ⟨'#', m14.tail ++ rest, by simp [m14, m13], Or.inr rfl⟩
+        | succ k => exact ⟨' ', List.replicate k ' ' ++ (m14 ++ rest), by simp [List.replicate_succ], Or.inl rfl⟩
     have h0 := no_m14_prefix (c :: t) _ (by simp) hm hsafe
     simp only [List.cons_append] at h0 ⊢
     simp [partitionAt, h0, ih (noM13_tail hm)]
@@ -360,7 +362,7 @@ theorem renderHints_head (hs : List Hint) (hne : hs ≠ []) : ∃ R, renderHints
 /-! ### A rendered code line -/
 
 /-- The text that follows the code on a hinted line. -/
-def hintPart (c : CodeLine) : Str := List.replicate (c.pad + 1) ' ' ++ (m13 ++ renderHints c.hints)
+def hintPart (c : CodeLine) : Str := List.replicate c.pad ' ' ++ (m13 ++ renderHints c.hints)
 
 theorem renderCode_hinted (c : CodeLine) (h : c.hints ≠ []) : renderCode c = c.code ++ hintPart c := by
   simp [renderCode, h, hintPart]
@@ -369,7 +371,7 @@ theorem renderCode_plain (c : CodeLine) (h : c.hints = []) : renderCode c = c.co
   simp [renderCode, h]
 
 theorem hintPart_eq (c : CodeLine) (h : c.hints ≠ []) :
-    ∃ R, renderHints c.hints = ' ' :: R ∧ hintPart c = List.replicate (c.pad + 1) ' ' ++ (m14 ++ R) := by
+    ∃ R, renderHints c.hints = ' ' :: R ∧ hintPart c = List.replicate c.pad ' ' ++ (m14 ++ R) := by
   obtain ⟨R, hR⟩ := renderHints_head c.hints h
   exact ⟨R, hR, by simp [hintPart, hR, m14]⟩
 
@@ -377,9 +379,13 @@ theorem hintPart_safe (c : CodeLine) (h : c.hints ≠ []) (Z : Str) : SafeTail (
   right; right
   unfold hintPart
   cases c.pad with
-  | zero => exact ⟨'#', m13.tail ++ renderHints c.hints ++ Z, by simp [m13], Or.inr rfl⟩
+  | zero => exact Or.inr ⟨m13.tail ++ renderHints c.hints ++ Z, by simp [m13]⟩
   | succ k =>
-    exact ⟨' ', List.replicate k ' ' ++ (m13 ++ renderHints c.hints) ++ Z, by simp [List.replicate_succ], Or.inl rfl⟩
+    left
+    cases k with
+    | zero => exact ⟨'#', m13.tail ++ renderHints c.hints ++ Z, by simp [m13], Or.inr rfl⟩
+    | succ k =>
+      exact ⟨' ', List.replicate k ' ' ++ (m13 ++ renderHints c.hints) ++ Z, by simp [List.replicate_succ], Or.inl rfl⟩
 
 structure OkCode (O : CharOracle) (c : CodeLine) : Prop where
   nonl : '\n' ∉ c.code
@@ -455,7 +461,7 @@ theorem hintAhead_code (a Y : Str) (ha : a ≠ []) (hm : noM13 a = true)
     exact ⟨x, List.mem_of_getLast? hx, ht x hx⟩
   unfold hintAhead
   rw [dropWhile_append_of_exists a Y hex]
-  exact no_m14_prefix _ Y (dropWhile_ne_nil_of_exists a hex)
+  exact no_m13_prefix _ Y (dropWhile_ne_nil_of_exists a hex)
     (noM13_of_infix hm (List.dropWhile_suffix _).isInfix) hY
 
 theorem dropWhile_spaces_gen (p : Char → Bool) (hp : p ' ' = true) (n : Nat) (R : Str)
@@ -560,8 +566,11 @@ theorem subHints_hintPart (c : CodeLine) (ok : (OkCode O) c) (h : c.hints ≠ []
     (subHints O) false (hintPart c ++ Z) = (subHints O) true Z := by
   have ha := hintAhead_hintPart (O := O) c h Z
   have hn := hintPart_noNL c ok
-  obtain ⟨R, _, hP⟩ := hintPart_eq c h
-  have : hintPart c = ' ' :: (hintPart c).tail := by rw [hP, List.replicate_succ]; rfl
+  have : ∃ x, hintPart c = x :: (hintPart c).tail := by
+    cases hP : hintPart c with
+    | nil => have := congrArg List.length hP; simp [hintPart, m13] at this
+    | cons x t => exact ⟨x, rfl⟩
+  obtain ⟨x, this⟩ := this
   rw [this] at ha hn ⊢
   simp only [List.cons_append] at ha ⊢
   simp only [subHints, Bool.false_and, ha, if_true, Bool.false_eq_true, if_false]
